@@ -411,8 +411,8 @@ func c09Check(c *fw.Ctx, m *rec.Rec, packed string) bool {
 		var re []byte
 		var l2 int
 		var derr error
-		input := append([]byte(nil), in...)
-		vd := fw.Guard(len(input), func() {
+		vd := fw.Guard(len(in), func() {
+			input := append([]byte(nil), in...) // a fresh copy per run (the decoder's input is overwritten afterwards; the guard may run this twice)
 			if len(first) > 0 {
 				x, v, re, l2, derr = codec.decUsed(append([]byte(nil), first[0]...), input)
 			} else {
